@@ -8,9 +8,9 @@ V = os.path.normpath(os.path.join(os.path.dirname(os.path.abspath(__file__)), ".
 
 CLAIMS = {
  "C09": dict(
-   text="Lean 4 theorems: the scalar kernel and each lane of the vector kernel equal the Annex J filter for all 2^32 patterns x 12 strengths (no i16 wrap, casts exact), hence lane/remainder and position independence of the kernel result; the image-level model (chunk/remainder loops of both passes) is tied to deblock.rs by correspondence on every width x height of a dense range and compared with a pointwise Annex J specification.",
-   note="Proved: kernel-level statements (scalar_eq_spec, simd_eq_spec, simd_eq_scalar, filter_range). The statement that the chunk/remainder loops equal the pointwise specification for every image size is carried by the correspondence runs (model vs. code, model vs. pointwise spec), not yet by a theorem. Axioms: propext, Classical.choice, Quot.sound. Trusted: wide's lane-wise wrapping semantics, translator, harness.",
-   design="DESIGN.md §4 C09", technique="Lean 4 proof (omega over the kernel) + model/code correspondence"),
+   text="Lean 4 theorems: the scalar kernel and each lane of the vector kernel equal the Annex J filter for all 2^32 patterns x 12 strengths (no i16 wrap, casts exact), hence lane/remainder and position independence of the kernel result; and at image level, for EVERY width >= 1, every height (0 and 1 rows included), every byte content and every strength 1..12, the model of deblock (in-place horizontal-edge pass with vector lanes for the first floor(w/8)*8 columns and the scalar kernel for the rest, then the vertical-edge pass with vector lanes for the first floor(h/8)*8 rows, chunk by chunk along each row, nothing for widths below ten) returns exactly the pointwise Annex J specification (deblock_eq_spec): each sample within e-2..e+1 of an 8-aligned edge e >= 8 whose four samples lie inside the image gets the corresponding output of the edge filter on the four samples straddling that edge, every other sample is unchanged; vertical pass on the result of the horizontal one. The model is tied to deblock.rs by correspondence on every width x height of a dense range with nine content styles (incl. structured ones where vector chunks have equal rows), model = code = specification.",
+   note="Complete at model level. Proof: invariant `every sample is its original value or the filter of the ORIGINAL four samples` through both in-place loops (the four samples of one application are touched by no other). Axioms: propext, Classical.choice, Quot.sound. Trusted: wide's lane-wise wrapping semantics, translator, harness. Input immutability is a type-level fact (&[u8]).",
+   design="DESIGN.md §4 C09, §8.6", technique="Lean 4 proof (omega over the kernel; loop invariants over both passes) + model/code correspondence"),
  "C16": dict(
    text="Lean 4 theorems: for every width >= 1, every image whose length is a multiple of it (0 and 1 rows, < 10 columns included) and every strength 1..12 the model of deblock returns a same-length byte image (panic outcome unreachable: every index checked, every subtraction and i16 operation range-checked); the regenerated QUANT_TO_STRENGTH equals Table J.2 (decide over all 32 entries). Model tied to the code by exhaustive correspondence over widths x heights x strengths with overflow checks on.",
    note="Axioms: propext, Classical.choice, Quot.sound. usize additions/multiplications are modelled on unbounded Nat (64-bit target, sizes far below 2^64). Table J.2 is my transcription of the Recommendation.",
